@@ -98,8 +98,8 @@ func ruleC18Config(c *ctx.Ctx, r *core.Reporter) {
 	}
 	// BuildTags = user tags ++ defaultBuildTags
 	if e, ok := fields["BuildTags"]; ok {
-		s := squash(exprStr(e))
-		r.Check(s == "append(append([]string{},"+param+".BuildTags...),defaultBuildTags...)", "context:BuildTags", c.Pos(e.Pos()), "BuildTags is a fresh slice of the user's tags followed by the always-on tags: "+exprStr(e))
+		ok, why := tagsUnion(c, e, param+".BuildTags", 0)
+		r.Check(ok, "context:BuildTags", c.Pos(e.Pos()), "BuildTags is a fresh slice holding, unconditionally, the user's tags and the always-on tags: "+exprStr(e)+" — "+why)
 	} else {
 		r.Violation("context:BuildTags", c.Pos(lit.Pos()), "BuildTags not set")
 	}
@@ -339,4 +339,94 @@ func ruleC18CLI(c *ctx.Ctx, r *core.Reporter) {
 	if n < 4 {
 		r.Undecided("cli:assignments", "tool.go", fmt.Sprintf("expected BuildTags assignments in build/install/run/test/serve; found %d", n))
 	}
+}
+
+// tagsUnion decides whether expression e is a fresh slice that contains, on every path, the elements of
+// `user` and of defaultBuildTags. Accepted shapes: nested appends starting from a fresh slice literal
+// (or make), and a call of a package-local helper with `user` as an argument whose single return
+// statement has such a shape over its parameter.
+func tagsUnion(c *ctx.Ctx, e ast.Expr, user string, depth int) (bool, string) {
+	var parts []string
+	fresh := false
+	var walk func(x ast.Expr) bool
+	walk = func(x ast.Expr) bool {
+		call, ok := ast.Unparen(x).(*ast.CallExpr)
+		if !ok {
+			switch y := ast.Unparen(x).(type) {
+			case *ast.CompositeLit:
+				fresh = len(y.Elts) == 0 || true
+				return true
+			}
+			return false
+		}
+		if id, ok := call.Fun.(*ast.Ident); ok && id.Name == "append" && len(call.Args) >= 1 {
+			if !walk(call.Args[0]) {
+				return false
+			}
+			if call.Ellipsis.IsValid() && len(call.Args) == 2 {
+				parts = append(parts, squash(exprStr(call.Args[1])))
+			}
+			return true
+		}
+		if id, ok := call.Fun.(*ast.Ident); ok && id.Name == "make" {
+			fresh = true
+			return true
+		}
+		return false
+	}
+	if walk(e) && fresh {
+		have := map[string]bool{}
+		for _, p := range parts {
+			have[p] = true
+		}
+		if have[squash(user)] && have["defaultBuildTags"] {
+			return true, "append chain over a fresh slice"
+		}
+		return false, fmt.Sprintf("append chain lacks %s or defaultBuildTags (has %v)", user, parts)
+	}
+	// helper call
+	call, ok := ast.Unparen(e).(*ast.CallExpr)
+	if !ok || depth > 0 {
+		return false, "not an append chain over a fresh slice"
+	}
+	id, ok := call.Fun.(*ast.Ident)
+	if !ok {
+		return false, "not an append chain over a fresh slice, nor a call of a local helper"
+	}
+	argIdx := -1
+	for i, a := range call.Args {
+		if squash(exprStr(a)) == squash(user) {
+			argIdx = i
+		}
+	}
+	fd := c.FuncDecl("build", id.Name)
+	if fd == nil || fd.Body == nil || argIdx < 0 {
+		return false, "helper " + id.Name + " not found or not given the user's tags"
+	}
+	// parameter name at argIdx
+	k := 0
+	pname := ""
+	for _, f := range fd.Type.Params.List {
+		for _, nm := range f.Names {
+			if k == argIdx {
+				pname = nm.Name
+			}
+			k++
+		}
+	}
+	var rets []*ast.ReturnStmt
+	ast.Inspect(fd.Body, func(n ast.Node) bool {
+		if _, isLit := n.(*ast.FuncLit); isLit {
+			return false
+		}
+		if rs, ok := n.(*ast.ReturnStmt); ok {
+			rets = append(rets, rs)
+		}
+		return true
+	})
+	if len(rets) != 1 || len(rets[0].Results) != 1 {
+		return false, fmt.Sprintf("helper %s has %d return statements: the always-on tags must be added on every path", id.Name, len(rets))
+	}
+	ok2, why := tagsUnion(c, rets[0].Results[0], pname, depth+1)
+	return ok2, "helper " + id.Name + ": " + why
 }
